@@ -70,6 +70,7 @@ package decode
 
 //@ contract decodeNumber
 //@   needs ffv0 dstmon
+//@   at call decode.printer assert [C11.operand.number] (= (at arg2 (int 0)) (ifaceas float32 (ite (= dnf (fnid buffer.decodeReal)) (spec.realV B P) (ite (= dnf (fnid buffer.decodeCoordinate)) (spec.coordV B P) (spec.z2oV B P)))))
 //@   at call decode.printer assert [C11.hex.le4 C02.hex.le4] (bvule (len arg0) (int 4))
 //@   at call decode.printer assert [C11.bytes.region] (or (= (len arg0) (int 0)) (and (= (rgn arg0) (rgn src@0)) (bvule (off src@0) (off arg0)) (bvule (bvadd (off arg0) (len arg0)) (bvadd (off src@0) (len src@0)))))
 //@   requires [dnf] isDnf
@@ -113,6 +114,7 @@ package decode
 
 //@ contract decodeArcToFlags
 //@   needs ffv0 dstmon
+//@   at call decode.printer assert [C11.operand.flags] (and (= (at arg2 (int 1)) (ifaceas uint32 (bvand (spec.natV B P) #x00000001))) (= (at arg2 (int 2)) (ifaceas uint32 (bvand (bvlshr (spec.natV B P) #x00000001) #x00000001))))
 //@   at call decode.printer assert [C11.hex.le4 C02.hex.le4] (bvule (len arg0) (int 4))
 //@   at call decode.printer assert [C11.bytes.region] (or (= (len arg0) (int 0)) (and (= (rgn arg0) (rgn src@0)) (bvule (off src@0) (off arg0)) (bvule (bvadd (off arg0) (len arg0)) (bvadd (off src@0) (len src@0)))))
 //@   modifies tr.decode.printer
@@ -185,6 +187,7 @@ package decode
 
 //@ contract decodeSetCReg
 //@   needs ffv0 dstmon
+//@   at call decode.printer assert [C11.operand.color] (=> (= arg1 (strlit "    %v\n")) (= (at arg2 (int 0)) (ifaceas ivg.Color (styl.color B P))))
 //@   at call decode.printer assert [C11.hex.le4 C02.hex.le4] (bvule (len arg0) (int 4))
 //@   at call decode.printer assert [C11.bytes.region] (or (= (len arg0) (int 0)) (and (= (rgn arg0) (rgn src@0)) (bvule (off src@0) (off arg0)) (bvule (bvadd (off arg0) (len arg0)) (bvadd (off src@0) (len src@0)))))
 //@   requires [nonempty] (bvugt (len src) (int 0))
@@ -198,6 +201,7 @@ package decode
 
 //@ contract decodeSetNReg
 //@   needs ffv0 dstmon
+//@   at call decode.printer assert [C11.operand.nreg] (=> (= arg1 (strlit "    %g\n")) (= (at arg2 (int 0)) (ifaceas float32 (styl.number B P))))
 //@   at call decode.printer assert [C11.hex.le4 C02.hex.le4] (bvule (len arg0) (int 4))
 //@   at call decode.printer assert [C11.bytes.region] (or (= (len arg0) (int 0)) (and (= (rgn arg0) (rgn src@0)) (bvule (off src@0) (off arg0)) (bvule (bvadd (off arg0) (len arg0)) (bvadd (off src@0) (len src@0)))))
 //@   requires [nonempty] (bvugt (len src) (int 0))
@@ -237,6 +241,9 @@ package decode
 
 //@ contract decodeStyling
 //@   needs ffv0 dstmon
+//@   at call decode.printer assert [C11.hex.le4 C02.hex.le4] (bvule (len arg0) (int 4))
+//@   at call decode.printer assert [C11.operand.nsel] (=> (= arg1 (strlit "Set NSEL = %d\n")) (= (at arg2 (int 0)) (ifaceas uint8 (bvand (at src@0 (int 0)) #x3f))))
+//@   at call decode.printer assert [C11.operand.csel] (=> (= arg1 (strlit "Set CSEL = %d\n")) (= (at arg2 (int 0)) (ifaceas uint8 (bvand (at src@0 (int 0)) #x3f))))
 //@   requires [nonempty] (bvugt (len src) (int 0))
 //@   modifies tr.ivg.Destination tr.decode.printer mon.dst
 //@   ensures [C11.nil-printer C02.nil-printer] (=> (= p 0) (= TRP (old TRP)))
@@ -251,6 +258,7 @@ package decode
 //@   timeout 240
 //@   per-return
 //@   needs metadata
+//@   at call decode.printer assert [C11.operand.palette] (=> (= arg1 (strlit "    RGBA %02x%02x%02x%02x\n")) (and (= (at arg2 (int 0)) (ifaceas uint8 (color.RGBA.R (spec.sanitize c)))) (= (at arg2 (int 3)) (ifaceas uint8 (color.RGBA.A (spec.sanitize c))))))
 //@   at call decode.printer assert [C11.hex.le4 C02.hex.le4] (bvule (len arg0) (int 4))
 //@   at call decode.printer assert [C11.bytes.region] (or (= (len arg0) (int 0)) (and (= (rgn arg0) (rgn src@0)) (bvule (off src@0) (off arg0)) (bvule (bvadd (off arg0) (len arg0)) (bvadd (off src@0) (len src@0)))))
 //@   modifies *m tr.decode.printer
